@@ -106,8 +106,8 @@ def run_cmd(cmd, cwd=None, timeout=None, env=None, mem_gb=None):
     return {'rc': p.returncode, 'out': out, 'err': err, 'timeout': to, 'wall': time.time() - t0}
 
 
-def verus_run(path, rlimit, timeout=600):
-    cmd = ['verus', path, '--output-json', '--time', '--error-format=json', '--rlimit', str(rlimit), '--multiple-errors', '20']
+def verus_run(path, rlimit, timeout=600, extra=None):
+    cmd = ['verus', path, '--output-json', '--time', '--error-format=json', '--rlimit', str(rlimit), '--multiple-errors', '20'] + list(extra or [])
     r = run_cmd(cmd, cwd=os.path.dirname(path), timeout=timeout)
     diags = []
     raw_err = []
@@ -312,15 +312,55 @@ def run_verus_unit(u, workdir, tier, do_canaries=True):
             # (assumed callee contracts, axioms), so one representative function per kind carries the canary
             targets = [f for f in targets if any(c in f['function'] for c in u['canary_only'])]
 
+        def fast_canary(f):
+            # big generated units: the canary text is the assembled text with `false, // @canary` added after the last ensures
+            # clause of the function's block (the same line the assembler would add), instead of a second assembly of 900 items
+            lines = text.split('\n')
+            start = None
+            for i_, l_ in enumerate(lines):
+                if l_.startswith('// @fn %s  [' % f['function']):
+                    start = i_
+                    break
+            if start is None:
+                return None
+            last_ob = None
+            for i_ in range(start + 1, len(lines)):
+                if lines[i_].startswith('// @endfn') or lines[i_].lstrip().startswith('{'):
+                    break
+                if '// @ob ' in lines[i_]:
+                    last_ob = i_
+            if last_ob is None or 'ensures' not in '\n'.join(lines[start:last_ob + 1]):
+                return None
+            # the clause must belong to the ensures block (requires clauses come first)
+            seen_ens = False
+            for i_ in range(start + 1, last_ob + 1):
+                if lines[i_].strip() == 'ensures':
+                    seen_ens = True
+            if not seen_ens:
+                return None
+            lines.insert(last_ob + 1, '        false, // @canary')
+            return '\n'.join(lines), {'ob_lines': {last_ob + 2: '@canary'}}
+
         def one(f):
+            fc = fast_canary(f) if u.get('canary_only') else None
             try:
-                ctext, cmeta, _ = assemble_verus.assemble(u['_path'], REPO, canary=f['item_index'])
+                if fc is not None:
+                    ctext, cmeta = fc
+                else:
+                    ctext, cmeta, _ = assemble_verus.assemble(u['_path'], REPO, canary=f['item_index'])
             except Exception as e:  # noqa
                 return f['function'], 'error: %s' % e
             cpath = os.path.join(workdir, '%s_canary%d.rs' % (unit, f['item_index']))
             with open(cpath, 'w') as fh:
                 fh.write(ctext)
-            cr = verus_run(cpath, rlimit, timeout=u.get('timeout', 600))
+            extra = None
+            if u.get('canary_only'):
+                # big generated units: the canary run verifies ONLY the function that carries the canary
+                # (`--verify-function Type::name`), not the whole file again
+                mt_ = re.search(r"(?:for\s+|impl\s+)([A-Za-z_][A-Za-z0-9_]*)\s*(?:<[^>]*>)?\s*(?:#\d+)?::fn\s+([A-Za-z_][A-Za-z0-9_]*)\s*$", f['function'])
+                if mt_:
+                    extra = ['--verify-root', '--verify-function', '%s::%s' % (mt_.group(1), mt_.group(2))]
+            cr = verus_run(cpath, rlimit, timeout=u.get('timeout', 600), extra=extra)
             hit = False
             for d in cr['diags']:
                 if d.get('level') != 'error':
